@@ -1,6 +1,7 @@
 package larking
 
 import (
+	"context"
 	"hash"
 
 	"google.golang.org/genproto/googleapis/api/annotations"
@@ -30,7 +31,8 @@ func VerifH_registry_snapshot() {
 	}
 	sdA := &grpc.ServiceDesc{ServiceName: "vf.A", Methods: []grpc.MethodDesc{{MethodName: "M1", Handler: vfUnaryHandler}, {MethodName: "M2", Handler: vfUnaryHandler}}}
 	sdB := &grpc.ServiceDesc{ServiceName: "vf.B", Methods: []grpc.MethodDesc{{MethodName: "M1", Handler: vfUnaryHandler}, {MethodName: "M2", Handler: vfUnaryHandler}}}
-	c1, c2 := new(grpc.ClientConn), new(grpc.ClientConn)
+	defer vfCloseBackends()
+	c1, c2 := vfBackendConn(nil), vfBackendConn(nil)
 	// first writer: populate
 	switch vfChoice(3) {
 	case 0:
@@ -108,20 +110,6 @@ type vfBackend struct {
 	live bool
 }
 
-type vfRouteProbe struct{ route, verb string }
-
-var vfAllMethods = []struct {
-	name   string
-	route  string
-	verb   string
-	others []vfRouteProbe // additional bindings
-}{
-	{"/vf.A/M1", "/v1/xx/yy", "GET", nil},
-	{"/vf.A/M2", "/v1/a2/zz", "GET", []vfRouteProbe{{"/v1/a2b", "POST"}}},
-	{"/vf.B/M1", "/v1/xx", "PUT", nil},
-	{"/vf.B/M2", "/v1/zz", "GET", nil},
-}
-
 func vfExposes(svcs []vfSvcSpec, method string) bool {
 	for _, sp := range svcs {
 		if len(method) > len(sp.full)+1 && method[1:1+len(sp.full)] == sp.full && method[1+len(sp.full)] == '/' {
@@ -131,28 +119,12 @@ func vfExposes(svcs []vfSvcSpec, method string) bool {
 	return false
 }
 
-// vfRegisterConn is (*Mux).RegisterConn without the dial: the reflection stream is the fake one.
+// vfRegisterConn makes the backend behind cc expose stream.svcs and calls the REAL
+// (*Mux).RegisterConn (under the engine its reflection client is answered by the fake conversation,
+// natively cc is a live in-process backend with a real reflection service).
 func vfRegisterConn(m *Mux, cc *grpc.ClientConn, stream *vfReflStream) error {
-	m.mu.Lock()
-	defer m.mu.Unlock()
-	s := m.loadState().clone()
-	if err := s.addConnHandler(m.opts, cc, stream); err != nil {
-		return err
-	}
-	m.storeState(s)
-	return stream.CloseSend()
-}
-
-func vfFingerprint(s *state) string {
-	if s == nil {
-		return "nil"
-	}
-	fp := s.path.String()
-	for _, me := range vfAllMethods {
-		fp += "|" + me.name + "=" + string(rune('0'+len(s.handlers[me.name])))
-	}
-	fp += "|conns=" + string(rune('0'+len(s.conns)))
-	return fp
+	vfBackendSetSpecs(cc, stream.svcs)
+	return m.RegisterConn(context.Background(), cc)
 }
 
 // VerifH_registry (C11, C12, C16): every history of up to H register / drop operations over a local
@@ -169,8 +141,9 @@ func VerifH_registry() {
 	}
 	sdA := &grpc.ServiceDesc{ServiceName: "vf.A", Methods: []grpc.MethodDesc{{MethodName: "M1", Handler: vfUnaryHandler}, {MethodName: "M2", Handler: vfUnaryHandler}}}
 	sdB := &grpc.ServiceDesc{ServiceName: "vf.B", Methods: []grpc.MethodDesc{{MethodName: "M1", Handler: vfUnaryHandler}, {MethodName: "M2", Handler: vfUnaryHandler}}}
-	c1 := &vfBackend{cc: new(grpc.ClientConn)}
-	c2 := &vfBackend{cc: new(grpc.ClientConn)}
+	defer vfCloseBackends()
+	c1 := &vfBackend{cc: vfBackendConn(nil)}
+	c2 := &vfBackend{cc: vfBackendConn(nil)}
 	unknown := new(grpc.ClientConn)
 	localA, localB := 0, 0 // number of local registrations
 	var dropped [][]*handler
@@ -433,7 +406,8 @@ func VerifH_registry_maporder() {
 	if err != nil {
 		vfFail("NewMux failed")
 	}
-	c1 := new(grpc.ClientConn)
+	defer vfCloseBackends()
+	c1 := vfBackendConn(nil)
 	var svcs []vfSvcSpec
 	switch vfChoice(2) {
 	case 0:
